@@ -316,9 +316,12 @@ func main() {
 			origin[h] = fmt.Sprintf("in-process (%d of %d runs)", count[h], rIn)
 		}
 		if cross && tsErr == nil {
-			for _, k := range cpuSets {
+			for ki, k := range cpuSets {
 				if k > nproc {
 					continue
+				}
+				if strings.HasPrefix(j.spec, "testdata:") && ki%6 != 0 {
+					continue // testdata: three CPU sets
 				}
 				set := "0"
 				if k > 1 {
@@ -403,7 +406,11 @@ func main() {
 		}
 	}
 	for _, j := range jobs {
-		check(j, R, crossTestdata || strings.HasPrefix(j.spec, "dir:"))
+		r := R
+		if strings.HasPrefix(j.spec, "testdata:") && r > 20 {
+			r = 20 // one analysis of a program importing the standard library costs ~10 s
+		}
+		check(j, r, crossTestdata || strings.HasPrefix(j.spec, "dir:"))
 	}
 	// the F14 tie family (small programs: many repetitions are cheap)
 	tieR := R
